@@ -689,7 +689,7 @@ package process
 
 //@ contract interface Form.typecheckForm(self, gamma, sh, providerType, env, sigma, globalEnv)
 //@   requires[C07] uninit(self) && formOK(self) && gamma != nil && globalEnv != nil
-//@   emits tcLast = result
+//@   emits[C07] tcLast = result
 
 // send w<u, v>
 //@ macro stepSend(p *SendForm, g NamesTypesCtx, sh *Name, A types.SessionType, env types.LabelledTypesEnv) bool =
@@ -736,10 +736,9 @@ package process
 //@   callsite[C07] C07.waitCont process.Form.typecheckForm#1: arg2 == providerShadowName && arg3 == providerType && arg1 == gammaNameTypesCtx
 // a name without an explicit polarity annotation passes the polarity check
 //@ contract (*Name).ExplicitPolarityValid
-//@   ensures C07.polarityNone: n.ExplicitPolarity == nil ==> result
+//@   ensures[C07] C07.polarityNone: n.ExplicitPolarity == nil ==> result
 //@ contract checkExplicitPolarityValidity
-//@   ensures C07.polarityAllNone: (forall k int :: 0 <= k && k < len(names) ==> names[k].ExplicitPolarity == nil) ==> result == nil
-//@   loop 1 invariant true
+//@   ensures[C07] C07.polarityAllNone: (forall k int :: 0 <= k && k < len(names) ==> names[k].ExplicitPolarity == nil) ==> result == nil
 
 // w.l<v>
 //@ macro firstAt(bs []types.Option, l string, k int) bool = 0 <= k && k < len(bs) && bs[k].Label == l && (forall j int :: 0 <= j && j < k ==> bs[j].Label != l)
